@@ -345,8 +345,15 @@ class SymWorld(WorldBase):
         if self._clock_n > 0:
             prev = z3.Real('clock_%d' % (self._clock_n - 1))
             self.eng.assume(SV(t.t >= prev))
+        force = getattr(self, 'clock_force', None)
+        if force is not None and self._clock_n >= force[0]:
+            # the history explored is one where the time limit is hit here
+            self.eng.assume(t - SV(z3.Real('clock_0')) >= force[1])
         self._clock_n += 1
         return t
+
+    def clock_value(self, k):
+        return SV(z3.Real('clock_%d' % k))
 
     def logsumexp(self, a):
         return symnp.logsumexp(a)
@@ -490,6 +497,125 @@ class ConcreteWorld(WorldBase):
         self._clock_n += 1
         return t
 
+    def clock_value(self, k):
+        return self._val('clock_%d' % k, 'real')
+
     def logsumexp(self, a):
         from scipy.special import logsumexp
         return logsumexp(a)
+
+
+# ---------------------------------------------------------------------------
+# free thresholds (run() limits): comparisons are recorded / replayed
+# ---------------------------------------------------------------------------
+
+class SymThr(object):
+    """A free numeric input that is only ever compared.  Every comparison is
+    registered so that the replay can answer it the same way."""
+    __array_priority__ = 3000
+
+    def __init__(self, W, name, sort='real'):
+        self.W, self.name = W, name
+        self.sv = W.real(name) if sort == 'real' else W.int(name)
+
+    def _reg(self, r):
+        eng = self.W.eng
+        if isinstance(r, SV):
+            n = eng.fresh_n.get('@thr_' + self.name, 0)
+            eng.fresh_n['@thr_' + self.name] = n + 1
+            eng.apps.append(('thr_%s@%d' % (self.name, n), r.t))
+        return r
+
+    def _cmp(self, o, op):
+        if hasattr(o, 'flat_list'):
+            vals = [self._cmp(x, op) for x in o.flat_list()]
+            return symnp.ndarray.from_flat(vals, o.shape, 'bool')
+        if isinstance(o, SymThr):
+            o = o.sv
+        s = self.sv
+        r = {'lt': lambda: s < o, 'le': lambda: s <= o, 'gt': lambda: s > o,
+             'ge': lambda: s >= o, 'eq': lambda: s == o,
+             'ne': lambda: s != o}[op]()
+        return self._reg(r)
+
+    def __lt__(self, o): return self._cmp(o, 'lt')
+    def __le__(self, o): return self._cmp(o, 'le')
+    def __gt__(self, o): return self._cmp(o, 'gt')
+    def __ge__(self, o): return self._cmp(o, 'ge')
+    def __eq__(self, o): return self._cmp(o, 'eq')
+    def __ne__(self, o): return self._cmp(o, 'ne')
+    __hash__ = None
+
+    # arithmetic used by harness obligations only
+    def __add__(self, o): return self.sv + o
+    def __radd__(self, o): return o + self.sv
+
+
+class ConcThr(object):
+    """Replay twin: answers comparisons as recorded in the model and checks
+    afterwards that one number is consistent with all answers."""
+    __array_priority__ = 3000
+
+    def __init__(self, W, name, sort='real'):
+        self.W, self.name = W, name
+        self.value = W.real(name) if sort == 'real' else W.int(name)
+        self.lo, self.hi = -float('inf'), float('inf')   # open interval
+        self.eqs, self.bad = [], False
+
+    __array_ufunc__ = None
+
+    def _cmp(self, o, op):
+        W = self.W
+        if getattr(o, 'ndim', 0) > 0:
+            import numpy
+            return numpy.array([self._cmp(x, op) for x in o.ravel()],
+                               dtype=bool).reshape(o.shape)
+        n = W.fresh_n.get('@thr_' + self.name, 0)
+        W.fresh_n['@thr_' + self.name] = n + 1
+        key = 'thr_%s@%d' % (self.name, n)
+        if isinstance(o, ConcThr):
+            o = o.value
+        o = float(o)
+        if key in W.model:
+            ans = bool(W.model[key])
+        else:
+            v = self.value
+            ans = {'lt': v < o, 'le': v <= o, 'gt': v > o, 'ge': v >= o,
+                   'eq': v == o, 'ne': v != o}[op]
+        # thr op o == ans  -> constraint on thr
+        if op in ('lt', 'le'):
+            if ans:
+                self.hi = min(self.hi, o)
+            else:
+                self.lo = max(self.lo, o)
+        elif op in ('gt', 'ge'):
+            if ans:
+                self.lo = max(self.lo, o)
+            else:
+                self.hi = min(self.hi, o)
+        if self.lo > self.hi:
+            self.bad = True
+        return ans
+
+    def __lt__(self, o): return self._cmp(o, 'lt')
+    def __le__(self, o): return self._cmp(o, 'le')
+    def __gt__(self, o): return self._cmp(o, 'gt')
+    def __ge__(self, o): return self._cmp(o, 'ge')
+    def __eq__(self, o): return self._cmp(o, 'eq')
+    def __ne__(self, o): return self._cmp(o, 'ne')
+    __hash__ = None
+
+    def __add__(self, o): return self.value + o
+    def __radd__(self, o): return o + self.value
+    def __float__(self): return float(self.value)
+
+
+def threshold(W, name, sort='real'):
+    t = (SymThr if W.symbolic else ConcThr)(W, name, sort)
+    W.thresholds = getattr(W, 'thresholds', []) + [t]
+    return t
+
+
+def thresholds_consistent(W):
+    return not any(getattr(t, 'bad', False)
+                   for t in getattr(W, 'thresholds', []))
